@@ -57,6 +57,46 @@ class SymParamParser(object):
   def pair(self):
     return self._sym_list(self._cp.pair, "Pair")
 
+  @property
+  def species(self):
+    """The real ConfigParser.species code, run over a view of the [Species]
+    section in which every float-typed property value is a symbolic real."""
+    from atsim.potentials.config._config_parser import ConfigParser
+    raw = self._cp.raw_config_parser
+    if not raw.has_section("Species"):
+      return ConfigParser.species.fget(self._cp)
+    vals = {}
+    self.species_symbols = {}
+    for k in raw["Species"]:
+      v = raw["Species"][k]
+      prop = k.split(".", 1)[-1].strip()
+      if prop in ("atomic_mass", "lattice_constant", "charge", "covalent_radius"):
+        name = "Species|%s" % k.replace(" ", "")
+        self.namer.values[name] = float(v)
+        v = core.sym(name)
+        self.species_symbols[k.replace(" ", "")] = name
+      vals[k] = v
+
+    class _Raw(object):
+      def has_section(self, s):
+        return s == "Species"
+
+      def __getitem__(self, s):
+        return vals
+
+    class _View(object):
+      _config_parser = _Raw()
+      _convert_species_type = lambda self_, prop, v: ConfigParser._convert_species_type(self._cp, prop, v)
+    try:
+      return ConfigParser.species.fget(_View())
+    except (AttributeError, TypeError) as e:
+      # the code under test treats the values as text (e.g. v.strip()): fall
+      # back to the concrete values of the file (noted; no symbolic metadata)
+      core.note("[Species] values handled concretely: %s" % e)
+      self.species_symbols = {}
+      self.species_concrete = True
+      return ConfigParser.species.fget(self._cp)
+
   def parse_pair_like(self, section_name):
     return self._sym_list(self._cp.parse_pair_like(section_name), section_name)
 
@@ -113,3 +153,45 @@ def render_pairs(cp, values, section="Pair"):
     key = "-".join(t.species)
     lines.append("%s-%s : %s" % (t.species[0], t.species[1], render_definition(t.potential_form_instance, values, section, key)))
   return "\n".join(lines) + "\n"
+
+
+def render_model_text(cp, text, values):
+  """The model file `text` with the float parameters of every potential
+  definition and the float-typed [Species] values replaced by `values`
+  (names as produced by SymParamParser).  Other sections are kept verbatim."""
+  import re
+  raw = cp.raw_config_parser
+  out_sections = []
+  # split the text into sections, keep order
+  parts = re.split(r"(?m)^(\[[^\]\n]+\])[ \t]*$", text)
+  head = parts[0]
+  secs = list(zip(parts[1::2], parts[2::2]))
+  res = [head]
+  for hdr, body in secs:
+    name = hdr[1:-1].strip()
+    if name in ("Pair", "EAM-ADP-Dipole", "EAM-ADP-Quadrupole") and raw.has_section(name):
+      res.append(render_pairs(cp, values, name) + "\n")
+    elif name == "EAM-Embed" and raw.has_section(name):
+      lines = ["[EAM-Embed]"]
+      for t in cp.eam_embed:
+        lines.append("%s : %s" % (t.species, render_definition(t.potential_form_instance, values, "EAM-Embed", str(t.species))))
+      res.append("\n".join(lines) + "\n\n")
+    elif name == "EAM-Density" and raw.has_section(name):
+      lines = ["[EAM-Density]"]
+      fs = any("->" in k for k in raw["EAM-Density"])
+      for t in (cp.eam_density_fs if fs else cp.eam_density):
+        key = "%s->%s" % (t.species.from_species, t.species.to_species) if fs else str(t.species)
+        lines.append("%s : %s" % (key, render_definition(t.potential_form_instance, values, "EAM-Density", key)))
+      res.append("\n".join(lines) + "\n\n")
+    elif name == "Species":
+      lines = ["[Species]"]
+      for k in raw["Species"]:
+        v = raw["Species"][k]
+        nm = "Species|%s" % k.replace(" ", "")
+        if nm in values:
+          v = repr(float(values[nm]))
+        lines.append("%s : %s" % (k, v))
+      res.append("\n".join(lines) + "\n\n")
+    else:
+      res.append(hdr + body)
+  return "".join(res)
